@@ -10,9 +10,27 @@ require (
 
 require (
 	github.com/BurntSushi/toml v1.3.2 // indirect
+	github.com/avct/uasurfer v0.0.0-20191028135549-26b5daa857f1 // indirect
+	github.com/boombuler/barcode v1.0.1-0.20190219062509-6c824513bacc // indirect
 	github.com/go-ini/ini v1.67.0 // indirect
 	github.com/go-yaml/yaml v2.1.0+incompatible // indirect
+	github.com/gobwas/glob v0.2.3 // indirect
+	github.com/google/uuid v1.6.0 // indirect
+	github.com/k0kubun/pp v3.0.1+incompatible // indirect
+	github.com/mattn/go-colorable v0.1.8 // indirect
+	github.com/mattn/go-isatty v0.0.12 // indirect
+	github.com/pierrec/xxHash v0.1.5 // indirect
+	github.com/pion/dtls/v2 v2.2.12 // indirect
+	github.com/pquerna/otp v1.4.0 // indirect
+	github.com/remyoudompheng/bigfft v0.0.0-20200410134404-eec4a21b6bb0 // indirect
+	github.com/rs/xid v1.5.0 // indirect
 	github.com/ysugimoto/twist v0.10.2 // indirect
+	go.elara.ws/pcre v0.0.0-20230805032557-4ce849193f64 // indirect
+	golang.org/x/sync v0.12.0 // indirect
+	golang.org/x/sys v0.31.0 // indirect
+	modernc.org/libc v1.17.0 // indirect
+	modernc.org/mathutil v1.4.1 // indirect
+	modernc.org/memory v1.2.0 // indirect
 )
 
 replace github.com/ysugimoto/falco/v2 => /repo
